@@ -12,7 +12,8 @@ E1  TLC, exhaustive over INPUTS on the transcribed algorithm (spec/parfor/Chunki
     Negative controls: the same models with the pre-fix claim (unconditional fetch_add) must fail.
 E5  the real dispenso::parallel_for on int8/uint8 ranges (exhaustive in thorough), edge-biased
     16/32/64-bit ranges (touching min/max), all chunking modes / options / pool sizes 0..20 /
-    TaskSet + ConcurrentTaskSet / nested calls; the body records its chunk; TLC validates one step
+    TaskSet + ConcurrentTaskSet / nested calls; the body records its chunk; the index-form overloads
+    f(i) / f(state, i) with mixed-width start / end types (per-index visit counts); TLC validates one step
     per call: observed invocations = ParForOutcome(input) (equality), partition, all returned.
 """
 import os
@@ -26,7 +27,9 @@ def run(ctx):
     thorough = ctx.tier == 'thorough'
     exe = pc.build_parfor(ctx)
     bg = pc.Background(ctx, exe, WHAT)
-    for suite in ('i8', 'wide', 'nest', 'multi'):
+    # 'mixed': the index-form overloads f(i) / f(state, i) with start and end of different integer widths, ranges
+    # that pass the maximum of the narrower type (every index of the common type must reach the body exactly once)
+    for suite in ('i8', 'wide', 'nest', 'multi', 'mixed'):
         bg.start(suite)
 
     # E1 inputs ---------------------------------------------------------------------------------
@@ -67,7 +70,7 @@ def run(ctx):
         with open(allp, 'w') as f:
             for suite, tr, tot in done:
                 f.write(open(tr).read())
-        done = [('i8+wide+nest+multi', allp, {'completed': sum(t.get('completed', 0) for _, _, t in done)})]
+        done = [('i8+wide+nest+multi+mixed', allp, {'completed': sum(t.get('completed', 0) for _, _, t in done)})]
     for suite, tr, tot in done:
         ctx.validate(pc.SPEC, 'ParForTrace.tla', 'ParForTrace_C12.cfg', tr, WHAT,
                      executions=tot.get('completed', 0), label='records ' + suite, timeout=2400)
